@@ -1,1 +1,26 @@
 import GolibsVerif.Model.OMap
+import GolibsVerif.Lemmas.OMapBasic
+import GolibsVerif.Lemmas.OMapInv
+import GolibsVerif.Lemmas.OMapOps
+import GolibsVerif.Lemmas.OMapM
+import GolibsVerif.Lemmas.OMapSpec
+import GolibsVerif.Lemmas.OMapRel
+import GolibsVerif.Lemmas.OMapRel2
+import GolibsVerif.Lemmas.OMapRel3
+import GolibsVerif.Lemmas.OMapRel4
+import GolibsVerif.Lemmas.OMapRefine
+import GolibsVerif.Lemmas.OMapFacts
+/-
+Lemmas for the ordered map (C10, C11).  Proof architecture:
+* `OMapBasic`  – chain access on `pre ++ n :: suf`, observable projection `okl`, iterator tables
+* `OMapInv`    – chain invariant `CS c hd L rc` (parameterised by a reference-count function) and
+                 its preservation by replace / unlink / add
+* `OMapOps`    – computation of `delete`, one loop iteration (`nextLoop_iter`), loop specification
+                 (`nextLoop_spec`, reference of the stepping iterator "in flight") and definedness
+                 (`nextLoop_isSome`, needs only the structural part `Str`)
+* `OMapM`      – `next`, `getValue`, `release`, `iterator`, `itNext`
+* `OMapSpec`   – Spec-level facts
+* `OMapRel*`   – refinement relation `Sim` and the per-operation simulation lemmas
+* `OMapRefine` – First, `step_sim`, histories (`reach_sim`)
+* `OMapFacts`  – counting facts (C11)
+-/
